@@ -235,10 +235,11 @@ rule('D10', 'cli', r"editor\.autocompletion\(\|request, autocompletion\| \{",
      'closure parameters annotated with the types the callee signature gives them (needed to attach a closure contract)')
 rule('X6', 'cli', r"^use crate::autocomplete::Request;", "use crate::autocomplete::{Autocompletion, Request};", 1,
      'import of the type named in the closure parameter annotation')
-rule('D13', 'cli', r"NavigateInput::Backward if editor\.move_left\(\) => \{\n(\s*)(self\.writer\.flush_bytes\(codes::CURSOR_BACKWARD\)\?;)\n(\s*)\}\n\s*NavigateInput::Forward if editor\.move_right\(\) => \{\n\s*(self\.writer\.flush_bytes\(codes::CURSOR_FORWARD\)\?;)\n\s*\}\n\s*_ => return Ok\(\(\)\),",
-     r"NavigateInput::Backward => if editor.move_left() {\n\1\2\n\3} else { return Ok(()) },\n\3NavigateInput::Forward => if editor.move_right() {\n\1\4\n\3} else { return Ok(()) },", 1,
+rule('D13', 'cli', r"NavigateInput::Backward if ([^\n]*?) => \{\n(\s*)([^\n]*)\n(\s*)\}\n\s*NavigateInput::Forward if ([^\n]*?) => \{\n\s*([^\n]*)\n\s*\}\n\s*_ => return Ok\(\(\)\),",
+     r"NavigateInput::Backward => if \1 {\n\2\3\n\4} else { return Ok(()) },\n\4NavigateInput::Forward => if \5 {\n\2\6\n\4} else { return Ok(()) },", 1,
      'match guards followed by a `return` arm lose the resolution of final(..) in Verus (tool limitation, see D13 '
-     'for history): guards moved into the arms, same control flow')
+     'for history): guards moved into the arms, same control flow (guards and the one-statement arm bodies are '
+     'copied verbatim)')
 rule('D9', 'cli', r'debug_assert_eq!\(c\.chars\(\)\.count\(\), 1\);', 'proof { assert(c@.len() == 1); }', 1,
      'debug_assert_eq! on the number of chars becomes a proof obligation (it must hold in release builds too)')
 rule('D3', 'cli', r'"help"\.starts_with\(name\)', 'crate::verif_specs::str_starts_with("help", name)', 1,
@@ -247,6 +248,8 @@ rule('D5', 'cli', r'let result = input_generator\n\s*\.accept\(b\)\n\s*\.map\(\|
      r'let result = match input_generator.accept(b) {\n                Some(input) => match input {\n\1\n                },\n                None => Ok(()),\n            };', 1,
      'Option::map(closure).unwrap_or(Ok(())) == match (definitions of map / unwrap_or); the closure captures &mut self',
      flags=re.M | re.S)
+rule('D10', 'cli', r'for _ in ([^\n{]*?) \{', r'for _i in \1 {', 1,
+     'anonymous loop variable named (Verus rejects `_` here)')
 rule('X9', 'cli', r'(\n\s*)_ => \{\}(\n\s*\}\n\s*\}\);)', r'\1_ => {\1}\2', 1,
      'whitespace only: the empty block of the `_` arm in the completion closure is written over two lines so that a '
      'ghost proof block can be spliced into it')
